@@ -387,6 +387,21 @@ def run(tier, seed):
     if tier != "quick" or os.environ.get("PV_TSAN") == "1":
         tprogs = [(p, targets[i % len(targets)]) for i, p in enumerate(ok_progs[:1500] + SPECIAL)]
         run.extend(tsan_phase(tprogs, obs))
+    if tier != "quick" or os.environ.get("PV_MIRI"):
+        # Miri's data-race detector over two threads that lex + parse the same source at the same time (the
+        # lexer's / parser's lazily initialised statics); a full compile costs ~260 s under Miri and is not run there
+        from ..mon import miri
+        minfo = {"status": "not_run"}
+        obs["miri"] = minfo
+        mrng = core.shard_rng(seed, "C11:miri", 0)
+        short = sorted({p for p in ok_progs if len(p) <= 120})
+        msrcs = mrng.sample(short, min(len(short), 96 if tier != "quick" else 16))
+        mv, mres = miri.run_phase("threads", msrcs, 6 if tier != "quick" else 2, minfo, "C11")
+        run.extend(mv)
+        for s_, r_ in zip(msrcs, mres):
+            if r_ == "mismatch":
+                run.add_violation("nondeterministic:threads_miri", "threads:" + norm_shape(s_), {"mode": "threads", "src": s_, "target": "sql.generic"},
+                                  "two threads parsing the same source under Miri disagreed")
     best = {}
     for v in run.violations:
         k = (v["symptom"], v["shape"])
